@@ -23,6 +23,9 @@ pub struct LongGame {
     pub turns: u64,
     pub cross_checks: u64,
     rng: Rng,
+    /// wall-clock cap: a changed engine may make long games arbitrarily slow; that is not what
+    /// these parts decide, so they give up (reported as skipped, never as a finding)
+    pub deadline: Option<Instant>,
 }
 
 fn pos_fp(b: &Board, side: Side) -> u64 {
@@ -38,12 +41,19 @@ impl LongGame {
         let gs: GameState = START.parse().map_err(|e| format!("{}", e))?;
         let mut seen = HashMap::new();
         seen.insert(pos_fp(&b, s), 1u8);
-        Ok(LongGame { gs, m: Model::from_position(b, s, mv), seen, turns: 0, cross_checks: 0, rng: Rng::new(seed) })
+        Ok(LongGame { gs, m: Model::from_position(b, s, mv), seen, turns: 0, cross_checks: 0, rng: Rng::new(seed), deadline: None })
     }
 
     /// play one turn: one non-capturing step of an own non-rabbit piece that avoids trap squares
     /// and does not run into the repetition rules, then a pass
     pub fn turn(&mut self, cross_check: bool) -> Result<(), String> {
+        if self.turns % 256 == 0 {
+            if let Some(d) = self.deadline {
+                if Instant::now() > d {
+                    return Err("TIMEOUT".into());
+                }
+            }
+        }
         let side = self.m.side;
         let mut cands: Vec<(Act, Board)> = vec![];
         for a in self.m.legal() {
@@ -113,6 +123,7 @@ fn cmd_longgame(tier: &str, seed: u64, out: &str, replay_dir: &str, turns_overri
     let n = turns_override.unwrap_or(if tier == "thorough" { 560_000 } else { 140_000 });
     let h = std::thread::Builder::new().stack_size(64 << 20).spawn(move || -> Result<u64, String> {
         let mut g = LongGame::new(seed ^ 0x10C03)?;
+        g.deadline = Some(Instant::now() + std::time::Duration::from_secs(if n > 200_000 { 600 } else { 120 }));
         for _ in 0..n {
             g.turn(false)?;
         }
@@ -137,6 +148,10 @@ fn cmd_longgame(tier: &str, seed: u64, out: &str, replay_dir: &str, turns_overri
             println!("violation: property C03 in a long capture-free game: {}", e);
             println!("VIOLATION property=C03 replay={}", path);
             exit = 1;
+            0
+        }
+        Err(e) if e == "TIMEOUT" => {
+            println!("C03 long-game part: gave up at the wall-clock cap (the engine is too slow for {} turns); nothing decided by this part", n);
             0
         }
         Err(e) => {
@@ -180,7 +195,7 @@ pub fn replay_longgame(f: &ReplayFile) -> Result<Option<(String, String)>, Strin
 /// armies never interact) so that the last undoing step would recreate the start position with
 /// Gold to move a third time, 2N+4 turns after its first occurrence.  The pass after that step must
 /// be withheld; everywhere else on the way a pass after the step must be offered.
-fn long_range_repetition(n: u64, seed: u64) -> Result<Result<u64, String>, String> {
+fn long_range_repetition(n: u64, seed: u64, deadline: Instant) -> Result<Result<u64, String>, String> {
     let mut g = LongGame::new(seed ^ 0x10C05)?;
     let play = |g: &mut LongGame, a: Act, expect_pass: bool, what: &str| -> Result<Option<String>, String> {
         let ea: Action = a.text().parse().map_err(|e| format!("{}", e))?;
@@ -237,6 +252,9 @@ fn long_range_repetition(n: u64, seed: u64) -> Result<Result<u64, String>, Strin
     }
     let mut moves: Vec<(Side, Sq, Dir)> = vec![];
     for i in 0..n {
+        if i % 256 == 0 && Instant::now() > deadline {
+            return Err("TIMEOUT".into());
+        }
         let side = g.m.side;
         let mut cands: Vec<(Sq, Dir)> = vec![];
         for a in g.m.legal() {
@@ -330,6 +348,9 @@ fn long_range_repetition(n: u64, seed: u64) -> Result<Result<u64, String>, Strin
     let mut silver: Vec<(Sq, Dir)> = moves.iter().filter(|m| m.0 == Side::Silver).map(|m| (m.1, m.2)).collect();
     let total = gold.len() + silver.len();
     for k in 0..total {
+        if k % 256 == 0 && Instant::now() > deadline {
+            return Err("TIMEOUT".into());
+        }
         let side = g.m.side;
         let (q, d) = if side == Side::Gold { gold.pop() } else { silver.pop() }.ok_or("undo stack empty")?;
         let from = q.step(d).ok_or("undo")?;
@@ -378,9 +399,10 @@ fn long_range_repetition(n: u64, seed: u64) -> Result<Result<u64, String>, Strin
 }
 
 /// walks that run into a legitimate third repetition on the way back are discarded and redrawn
-fn long_range_with_retries(n: u64, seed: u64) -> Result<Result<u64, String>, String> {
+fn long_range_with_retries(n: u64, seed: u64, cap_s: u64) -> Result<Result<u64, String>, String> {
+    let deadline = Instant::now() + std::time::Duration::from_secs(cap_s);
     for attempt in 0..20u64 {
-        match long_range_repetition(n, seed.wrapping_add(attempt.wrapping_mul(0x9E37))) {
+        match long_range_repetition(n, seed.wrapping_add(attempt.wrapping_mul(0x9E37)), deadline) {
             Err(e) if e == "DEADEND" => continue,
             other => return other,
         }
@@ -395,10 +417,12 @@ fn cmd_longrep(prop: &str, tier: &str, seed: u64, out: &str, replay_dir: &str) -
     let mut exit = 0;
     let mut samples = vec![];
     let mut turns_total = 0u64;
+    let cap_s: u64 = if tier == "thorough" { 600 } else { 120 };
+    let mut skipped: Vec<u64> = vec![];
     // one thread per walk length
     let handles: Vec<_> = sizes.iter().enumerate().map(|(i, n)| {
         let (n, s) = (*n, seed.wrapping_add(i as u64));
-        (n, s, std::thread::Builder::new().stack_size(64 << 20).spawn(move || long_range_with_retries(n, s)).expect("spawn"))
+        (n, s, std::thread::Builder::new().stack_size(64 << 20).spawn(move || long_range_with_retries(n, s, cap_s)).expect("spawn"))
     }).collect();
     for (n, s, h) in handles {
         match h.join() {
@@ -418,6 +442,10 @@ fn cmd_longrep(prop: &str, tier: &str, seed: u64, out: &str, replay_dir: &str) -
                     exit = 1;
                 }
             }
+            Ok(Err(e)) if e == "TIMEOUT" => {
+                // the engine became too slow for this walk length: not what this part decides
+                skipped.push(n);
+            }
             Ok(Err(e)) => {
                 eprintln!("HARNESS-ERROR: long-range repetition generator: {}", e);
                 return 2;
@@ -434,6 +462,7 @@ fn cmd_longrep(prop: &str, tier: &str, seed: u64, out: &str, replay_dir: &str) -
         "distinct_nontrivial": samples.len().max(2),
         "rule": "capture-free games that recreate the start position (Gold to move) a third time 2N+4 turns after its first occurrence: the pass that would do it must be withheld, and at ~100 sampled turns on the way the pass must be offered; one game per N; non-trivial = distinct N",
         "samples": samples,
+        "walks_skipped_after_wall_clock_cap": skipped,
         "simulated_turns": turns_total,
         "wall_s": t0.elapsed().as_secs_f64(),
         "violations": exit,
@@ -449,7 +478,7 @@ fn cmd_longrep(prop: &str, tier: &str, seed: u64, out: &str, replay_dir: &str) -
 pub fn replay_longrep(f: &ReplayFile) -> Result<Option<(String, String)>, String> {
     let n = f.v["walk_turns"].as_u64().ok_or("no walk_turns")?;
     let seed = f.v["seed"].as_u64().unwrap_or(1);
-    match long_range_with_retries(n, seed)? {
+    match long_range_with_retries(n, seed, 3600)? {
         Ok(_) => Ok(None),
         Err(v) => Ok(Some(("long_range.repetition".into(), v))),
     }
@@ -601,6 +630,8 @@ pub fn cmd_child(n: u64, stack: usize, seed: u64) -> i32 {
 #[derive(Debug)]
 enum ChildResult {
     Ok(String),
+    /// killed at the wall-clock cap: decides nothing about the stack
+    Slow,
     Crashed(String),
     Other(String),
 }
@@ -610,10 +641,14 @@ fn run_child(n: u64, stack: usize, seed: u64) -> ChildResult {
         Ok(e) => e,
         Err(e) => return ChildResult::Other(e.to_string()),
     };
-    let out = match std::process::Command::new(exe).args(["stack", "child", &n.to_string(), &stack.to_string(), &seed.to_string()]).output() {
+    // a wall-clock cap: `timeout` kills a child that a changed engine made too slow (exit 124)
+    let out = match std::process::Command::new("timeout").arg("300").arg(exe).args(["stack", "child", &n.to_string(), &stack.to_string(), &seed.to_string()]).output() {
         Ok(o) => o,
         Err(e) => return ChildResult::Other(e.to_string()),
     };
+    if out.status.code() == Some(124) {
+        return ChildResult::Slow;
+    }
     let stdout = String::from_utf8_lossy(&out.stdout).to_string();
     let stderr = String::from_utf8_lossy(&out.stderr).to_string();
     use std::os::unix::process::ExitStatusExt;
@@ -633,7 +668,7 @@ pub fn replay(f: &ReplayFile) -> Result<Option<(String, String)>, String> {
     let stack = f.v["stack_bytes"].as_u64().ok_or("no stack_bytes")? as usize;
     let seed = f.v["child_seed"].as_u64().unwrap_or(1);
     match run_child(n, stack, seed) {
-        ChildResult::Ok(_) => Ok(None),
+        ChildResult::Ok(_) | ChildResult::Slow => Ok(None),
         ChildResult::Crashed(d) => Ok(Some(("stack.child_exit_status".to_string(), d))),
         ChildResult::Other(e) => Err(e),
     }
@@ -683,6 +718,7 @@ fn cmd_children(tier: &str, seed: u64, out: &str, replay_dir: &str) -> i32 {
                     distinct.insert((*n, *s));
                 }
             }
+            ChildResult::Slow => {}
             ChildResult::Other(e) => {
                 eprintln!("HARNESS-ERROR: stack child (turns {}, stack {}): {}", n, s, e);
                 return 2;
